@@ -72,6 +72,12 @@ def r_property(ctx, mc_runs, required_actions, render_cls, run_calls, dom, assum
         ],
     })
     ctx.assumptions += assumptions
+    # a thorough-tier trace can be several GB: it has been judged, keep the disk for the next check
+    try:
+        if os.path.getsize(trace) > 500 * 1000 * 1000:
+            os.remove(trace)
+    except OSError:
+        pass
 
 
 def first_line(path):
@@ -303,7 +309,7 @@ class DefaultRender(TypeRender):
         c = self.cfg
         v = len(c['variants'])
         var = c['variants'][v - 1]
-        path = self.name if c['kind'] != 'enum' else '%s::V%d' % (self.name, v)
+        path = self.name if c['kind'] != 'enum' else '%s::%s' % (self.name, self.vname(v))
         n = len(var['fields'])
         if c['kind'] == 'union':
             return '%s { f1: probes::pexpr(66) }' % path
@@ -791,7 +797,7 @@ VALTEXT = {'bool_t': 'true', 'bool_f': 'false', 'ident': 'zz', 'str_ident': '"zz
            'str_int': '"3"', 'str_negint': '"-3"', 'path2': 'aa::bb', 'str_path2': '"aa::bb"', 'float': '1.5', 'star': '*',
            'preds': 'T: Copy', 'str_preds': '"T: Copy"', 'call': 'ff(1)', 'char': "'c'",
            'hexint': '0x1F', 'sufint': '3u8', 'bigint': '99999999999999999999999', 'rawstr_ident': 'r"zz"', 'bytestr': 'b"zz"', 'str_ws_ident': '" zz "',
-           'str_2idents': '"a b"', 'str_hexint': '"0x1F"', 'str_plusint': '"+3"', 'paren_int': '(3)', 'rawident': 'r#zz', 'str_rawident': '"r#zz"', 'str_kw': '"type"'}
+           'str_2idents': '"a b"', 'str_hexint': '"0x1F"', 'str_plusint': '"+3"', 'paren_int': '(3)', 'rawident': 'r#zz', 'str_rawident': '"r#zz"', 'str_kw': '"type"', 'macro_call': 'vec![1]'}
 TRAIT_ORDER = ["Debug", "Clone", "Copy", "PartialEq", "Eq", "PartialOrd", "Ord", "Hash", "Default", "Deref", "DerefMut", "Into"]
 
 
@@ -1434,7 +1440,7 @@ def c11(ctx):
 # ---------------------------------------------------------------- C12
 GEN_DECL = {'TU': '<T, U>', 'rich': "<'a, const N: usize, T: Bnd = u8>", 'lc': "<'a, const N: usize>",
             'wide': "<'a, 'b: 'a, T: ?Sized + Bnd, const N: usize = 2, U: Bnd = u8>"}
-GEN_WHERE = {'TU': '', 'rich': 'T: Usr', 'lc': '', 'wide': "&'b T: Usr, U: Usr, [u8; N]: Sized"}
+GEN_WHERE = {'TU': '', 'rich': 'T: Usr', 'lc': '', 'wide': "&'b T: Usr, U: Usr, [u8; N]: Sized, Self: Sized, for<'x> &'x U: Usr2"}
 GEN_IMPL = {'TU': ('impl<T, U>', '<T, U>'), 'rich': ("impl<'a, const N: usize, T: Bnd>", "<'a, N, T>"), 'lc': ("impl<'a, const N: usize>", "<'a, N>"),
             'wide': ("impl<'a, 'b: 'a, T: ?Sized + Bnd, const N: usize, U: Bnd>", "<'a, 'b, T, N, U>")}
 GEN_PHANTOM = {'TU': 'PhantomData<(T, U)>', 'rich': "PhantomData<&'a [T; N]>", 'lc': "PhantomData<&'a [u8; N]>", 'wide': "PhantomData<(&'a u8, &'b T, [U; N])>"}
@@ -1685,9 +1691,17 @@ def c01(ctx):
     # real compiler
     import cases
     prelude = ('#![allow(dead_code)]\nuse educe::Educe; #[allow(unused_imports)] use probes::*; #[allow(unused_imports)] use ::core::marker::PhantomData; '
-               'pub trait Bnd {} pub trait Usr {} pub trait Cst {} impl Bnd for u8 {} impl Usr for u8 {} '
+               'pub trait Bnd {} pub trait Usr {} pub trait Usr2 {} pub trait Cst {} impl Bnd for u8 {} impl Usr for u8 {} '
                '#[derive(Debug, Clone, Copy, PartialEq, Eq, PartialOrd, Ord, Hash, Default)] pub struct Bb<X>(pub X);')
-    ok, per, stderr = rpipe.compile_only(ctx, 'C01', prelude, ['mod m%d { use super::*; %s %s }' % (i, item, extra) for i, (item, extra, _) in enumerate(items)])
+    def site(i, item, extra):
+        # where the item is written: in a module of its own, inside a function body, or inside a const block
+        if i % 7 == 5:
+            return 'mod m%d { use super::*; fn site() { %s %s } }' % (i, item, extra)
+        if i % 7 == 6:
+            return 'mod m%d { use super::*; const _: () = { %s %s }; }' % (i, item, extra)
+        return 'mod m%d { use super::*; %s %s }' % (i, item, extra)
+
+    ok, per, stderr = rpipe.compile_only(ctx, 'C01', prelude, [site(i, item, extra) for i, (item, extra, _) in enumerate(items)])
     trace = os.path.join(ctx.workdir, 'ktrace.ndjson')
     with open(trace, 'w') as f:
         for i in range(len(items)):
